@@ -1,7 +1,7 @@
 """C06 -- Pauli-exponential and time-evolution circuits implement exp(-itH)."""
 import itertools
 from tverif.engine import contract
-from tverif import qsem
+from tverif import qsem, ring
 
 AU = "tangelo/toolboxes/ansatz_generator/ansatz_utils.py"
 
@@ -58,6 +58,241 @@ def o3(h, st):
     h.mat_equal("unitary == exp(-i c P)", U, E, A, n)
     nvar = sum(1 for g in gates if g.is_variational)
     h.check("exactly one variational gate", nvar == 1)
+    h.done()
+
+
+# ---------------------------------------------------------------------------------------------------------------------
+# O1: change-of-basis gates
+
+@contract("C06", "O1.pauli_op_to_gate", targets=[(AU, "pauli_op_to_gate")], level="S",
+          structures=lambda tier: [{"op": op, "inverse": inv} for op in "XYZI" for inv in (False, True)])
+def o1(h, st):
+    """ensures: X -> R with R^dag Z R = X ; Y -> R (or R^dag when inverse) ; Z, I -> None"""
+    g = h.call(AU, "pauli_op_to_gate", 1, st["op"], st["inverse"])
+    if st["op"] in "ZI":
+        h.check("no gate for Z / I", g is None)
+        h.done()
+        return
+    h.check("a gate is returned", g is not None)
+    n = 2
+    U, A = qsem.unitary([g], n, exact=True)
+    Ud = qsem.rows_dagger(U, A)
+    Z = qsem.pauli_rows([(1, "Z")], n, A)
+    P = qsem.pauli_rows([(1, st["op"])], n, A)
+    # forward gate maps the P eigenbasis to the Z eigenbasis: U P U^dag == Z  (inverse flag: the adjoint gate)
+    if st["inverse"]:
+        lhs = qsem.rows_mul(qsem.rows_mul(Ud, P, A), U, A)
+    else:
+        lhs = qsem.rows_mul(qsem.rows_mul(U, P, A), Ud, A)
+    h.mat_equal("R P R^dag == Z", lhs, Z, A, n)
+    h.done()
+
+
+# ---------------------------------------------------------------------------------------------------------------------
+# O4/O5: exponentiated qubit operator (product formula, identity term, controls, returned phase)
+
+def make_qop(terms):
+    from tangelo.toolboxes.operators import QubitOperator
+    op = QubitOperator()
+    for w, c in terms:
+        op.terms[tuple(tuple(x) for x in w)] = c
+    return op
+
+
+POOL3 = [[[0, "X"]], [[1, "Z"]], [[0, "Z"], [1, "Z"]], [[0, "X"], [2, "Y"]], [[0, "Y"], [1, "X"], [2, "Z"]], [[2, "X"]], [[1, "Y"], [2, "Y"]]]
+
+
+def o4_structures(tier):
+    sts = []
+    pool = POOL3
+    combos = []
+    for k in (1, 2, 3):
+        for c in itertools.combinations(range(len(pool)), k):
+            combos.append(list(c))
+    if tier == "quick":
+        combos = combos[::5]
+    for ci, combo in enumerate(combos):
+        for ident in (False, True):
+            for ctrl in (None, [3], [3, 4], [4, 3]):
+                for order in (1, 2):
+                    for tmode in ("1", "1/2", "dict"):
+                        if tier == "quick" and (ci + order + len(tmode) + (1 if ident else 0) + (len(ctrl) if ctrl else 0)) % 5:
+                            continue
+                        sts.append({"terms": [pool[i] for i in combo], "identity": ident, "control": ctrl, "order": order, "time": tmode,
+                                    "n": 5 if ctrl and len(ctrl) > 1 else 4})
+    # control lists that contain qubit 0 (words shifted to qubits 1..3)
+    for combo in ([0], [1, 2], [3, 4]):
+        for ident in (False, True):
+            for ctrl in ([0], [0, 4], [4, 0]):
+                sts.append({"terms": [[[q + 1, l] for q, l in pool[i]] for i in combo], "identity": ident, "control": ctrl, "order": 1, "time": "1", "n": 5})
+    return sts
+
+
+def o4_samples(st, rnd, tier):
+    k = len(st["terms"]) + (1 if st["identity"] else 0)
+    out = []
+    for _ in range(2 if tier == "quick" else 6):
+        out.append({f"c{j}": rnd.choice([rnd.uniform(-4, 4), 0.0, 7.3, -1e-11]) for j in range(k)})
+    return out
+
+
+def _time_value(tmode, j):
+    from fractions import Fraction
+    if tmode == "1":
+        return Fraction(1)
+    if tmode == "1/2":
+        return Fraction(1, 2)
+    return [Fraction(1, 2), Fraction(1), Fraction(2), Fraction(1, 2)][j % 4]
+
+
+@contract("C06", "O4.get_exponentiated_qubit_operator_circuit", level="S", structures=o4_structures, native_samples=o4_samples,
+          targets=[(AU, "get_exponentiated_qubit_operator_circuit"), (AU, "recursive_trotter_suzuki_decomposition"), (AU, "exp_pauliword_to_gates")])
+def o4(h, st):
+    """ensures U(circuit) * phase == ordered product of exp(-i t_j c_j P_j) (order 1) / its symmetric version (order 2),
+    identity term -> returned phase (no control) or a phase on the controlled subspace; for every real c_j"""
+    n = st["n"]
+    words = [w for w in st["terms"]] + ([[]] if st["identity"] else [])
+    tm = st["time"]
+    fr = [_time_value(tm, j) / (2 if st["order"] == 2 else 1) for j in range(len(words))]
+    coefs = [h.real(f"c{j}", angle_denom=fr[j].denominator) for j in range(len(words))]
+    terms = list(zip(words, coefs))
+    qop = make_qop(terms)
+    if tm == "dict":
+        time = {tuple(tuple(x) for x in w): (float(_time_value(tm, j)) if not h.symbolic else ring.Poly.const(_time_value(tm, j))) for j, w in enumerate(words)}
+        tvals = [_time_value(tm, j) for j in range(len(words))]
+    else:
+        tv = _time_value(tm, 0)
+        time = ring.Poly(ring.Poly.const(tv).t, False) if h.symbolic else float(tv)
+        tvals = [tv] * len(words)
+    for c, t in zip(coefs, tvals):
+        # below the threshold the code drops the term (deviation <= 1e-10, outside the exact statement)
+        h.assume(abs(c * float(t)) > 1e-9 if not h.symbolic else abs(c * ring.Poly.const(t)) > 1e-9)
+    ctrl = st["control"]
+    control = None if ctrl is None else (ctrl[0] if len(ctrl) == 1 else list(ctrl))
+    circuit, phase = h.call(AU, "get_exponentiated_qubit_operator_circuit", qop, time, False, st["order"], control, True)
+    U, A = qsem.unitary(circuit._gates, n, exact=h.symbolic)
+    # specification
+    seq = [(w, c * (ring.Poly.const(t) if h.symbolic else float(t))) for (w, c), t in zip(terms, tvals)]
+    if st["order"] == 2:
+        half = ring.Poly.const(__import__("fractions").Fraction(1, 2)) if h.symbolic else 0.5
+        seq = [(w, a * half) for w, a in seq] + [(w, a * half) for w, a in seq[::-1]]
+    E = qsem.identity_rows(n, A)
+    for w, a in seq:
+        E = qsem.apply_exp_pauli(E, [tuple(x) for x in w], a, n, A, controls=ctrl)
+    U = qsem.rows_scale(U, phase if not isinstance(phase, float) or not h.symbolic else ring.Poly.const(phase), A)
+    h.mat_equal("U(circuit) * phase == product formula", U, E, A, n)
+    if ctrl is not None:
+        h.check_close("phase returned with a control is 1", phase, 1.0)
+    h.done()
+
+
+# ---------------------------------------------------------------------------------------------------------------------
+# O6: Trotter-Suzuki decomposition (orders 1 and 2 exact; per-word time fractions sum to t)
+
+@contract("C06", "O6.recursive_trotter_suzuki_decomposition", targets=[(AU, "recursive_trotter_suzuki_decomposition")], level="S",
+          structures=lambda tier: [{"k": k, "order": o} for k in (1, 2, 3, 4) for o in (1, 2)],
+          native_samples=lambda st, rnd, tier: [{"t": rnd.uniform(-3, 3), **{f"c{j}": rnd.uniform(-2, 2) for j in range(st["k"])}} for _ in range(3)])
+def o6(h, st):
+    """ensures order 1: [(w, Re(c_w) t)] in order ; order 2: S1(t/2) ++ S1(reversed, t/2) ; per word the times sum to c_w t"""
+    k = st["k"]
+    t = h.real("t")
+    cs = [h.real(f"c{j}") for j in range(k)]
+    words = [((j, "X"),) for j in range(k)]
+    out = h.call(AU, "recursive_trotter_suzuki_decomposition", list(zip(words, cs)), st["order"], t)
+    if st["order"] == 1:
+        h.check("length", len(out) == k)
+        for j in range(k):
+            h.check(f"word {j} in place", out[j][0] == words[j])
+            h.check_close(f"time of word {j}", out[j][1], cs[j] * t)
+    else:
+        h.check("length", len(out) == 2 * k)
+        exp_words = words + words[::-1]
+        exp_c = cs + cs[::-1]
+        for j in range(2 * k):
+            h.check(f"word {j} in place", out[j][0] == exp_words[j])
+            h.check_close(f"time of entry {j}", out[j][1], exp_c[j] * t / 2)
+    for j in range(k):
+        tot = sum(c for w, c in out if w == words[j])
+        h.check_close(f"time fractions of word {j} sum to c*t", tot, cs[j] * t)
+    h.done()
+
+
+@contract("C06", "O6b.trotter_suzuki_higher_order_fractions", targets=[(AU, "recursive_trotter_suzuki_decomposition")], level="B",
+          structures=lambda tier: [{"k": k, "order": o} for k in (1, 2, 3) for o in (4, 6)],
+          native_samples=lambda st, rnd, tier: [{"t": rnd.uniform(-3, 3), **{f"c{j}": rnd.uniform(-2, 2) for j in range(st["k"])}} for _ in range(4)])
+def o6b(h, st):
+    """bounded: for orders 4 and 6 the time fractions of every word sum to c_w t (4p + (1-4p) == 1), palindromic sequence"""
+    k = st["k"]
+    t = h.real("t")
+    cs = [h.real(f"c{j}") for j in range(k)]
+    words = [((j, "X"),) for j in range(k)]
+    out = h.call(AU, "recursive_trotter_suzuki_decomposition", list(zip(words, cs)), st["order"], t)
+    for j in range(k):
+        tot = sum(c for w, c in out if w == words[j])
+        h.check_close(f"time fractions of word {j} sum to c*t", tot, cs[j] * t, tol=1e-9)
+    h.check("palindromic word sequence", [w for w, _ in out] == [w for w, _ in out][::-1])
+    h.done()
+
+
+# ---------------------------------------------------------------------------------------------------------------------
+# O7: trotterize (qubit operators: S ; fermionic operators: bounded native)
+
+def o7_structures(tier):
+    sts = []
+    k = 0
+    for combo in ([0], [1, 2], [0, 3], [3, 4]) if tier == "quick" else ([0], [1, 2], [0, 3], [2, 4, 6], [3, 4], [0, 1, 5]):
+        for ident in (False, True):
+            for steps in (1, 2, 3):
+                for order in (1, 2):
+                    for ctrl in (None, [3]):
+                        for tmode in ("scalar", "dict"):
+                            k += 1
+                            if tier == "quick" and k % 3:
+                                continue
+                            if len(combo) + (1 if ident else 0) >= 3 and steps == 3 and order == 2:
+                                continue   # degree of the trig polynomials explodes; covered by the native bounded runs
+                            sts.append({"terms": [POOL3[i] for i in combo], "identity": ident, "steps": steps, "order": order, "control": ctrl, "time": tmode, "n": 4})
+    return sts
+
+
+@contract("C06", "O7.trotterize.qubit_operator", level="S", structures=o7_structures, native_samples=o4_samples,
+          targets=[(AU, "trotterize"), (AU, "get_exponentiated_qubit_operator_circuit")])
+def o7(h, st):
+    """ensures (circuit, phase) == (one product-formula step with time t/n) repeated n times; input operator unchanged"""
+    from fractions import Fraction
+    from tverif.engine import snapshot
+    n = st["n"]
+    words = [w for w in st["terms"]] + ([[]] if st["identity"] else [])
+    steps = st["steps"]
+    if st["time"] == "dict":
+        tvals = [[Fraction(1), Fraction(2), Fraction(1, 2)][j % 3] for j in range(len(words))]
+    else:
+        tvals = [Fraction(1)] * len(words)
+    coefs = [h.real(f"c{j}", angle_denom=(tvals[j] / steps / (2 if st["order"] == 2 else 1)).denominator) for j in range(len(words))]
+    for c in coefs:
+        h.assume(abs(c) > 1e-8)
+    terms = list(zip(words, coefs))
+    qop = make_qop(terms)
+    before = snapshot(qop.terms)
+    if st["time"] == "dict":
+        time = {tuple(tuple(x) for x in w): (ring.Poly.const(t) if h.symbolic else float(t)) for w, t in zip(words, tvals)}
+    else:
+        time = ring.Poly(ring.Poly.const(Fraction(1)).t, False) if h.symbolic else 1.
+    ctrl = st["control"]
+    control = None if ctrl is None else ctrl[0]
+    circuit, phase = h.call(AU, "trotterize", qop, time, steps, st["order"], False, {}, control, True)
+    h.check("operator argument unchanged", snapshot(qop.terms) == before)
+    U, A = qsem.unitary(circuit._gates, n, exact=h.symbolic)
+    seq = [(w, c * (ring.Poly.const(t / steps) if h.symbolic else float(t / steps))) for (w, c), t in zip(terms, tvals)]
+    if st["order"] == 2:
+        half = ring.Poly.const(Fraction(1, 2)) if h.symbolic else 0.5
+        seq = [(w, a * half) for w, a in seq] + [(w, a * half) for w, a in seq[::-1]]
+    E = qsem.identity_rows(n, A)
+    for _ in range(steps):
+        for w, a in seq:
+            E = qsem.apply_exp_pauli(E, [tuple(x) for x in w], a, n, A, controls=ctrl)
+    U = qsem.rows_scale(U, phase if not (isinstance(phase, float) and h.symbolic) else ring.Poly.const(phase), A)
+    h.mat_equal("U(circuit) * phase == (step)^n", U, E, A, n)
     h.done()
 
 PROPERTY = {
